@@ -716,20 +716,28 @@ pub fn cse_optimize_bodyform(
             // their captures.
             //
             // Ensure that lambdas above replace_path aren't targeted.
+            //
+            // A lambda inside another affected lambda is affected too, and
+            // replace_in_bodyform refuses a set of paths in which one contains
+            // another, so the captures are added one lambda at a time (adding a
+            // capture leaves every path as it was).
             let affected_lambdas = find_affected_lambdas(&d.instances, &replace_path, b)?;
-            if let Some(res) = replace_in_bodyform(
-                &affected_lambdas,
-                &function_body,
-                &|_v: &PathDetectVisitorResult<()>, b| {
-                    add_variable_to_lambda_capture(&new_variable_name, b)
-                },
-            ) {
-                function_body = res;
-            } else {
-                return Err(CompileErr(
-                    loc.clone(),
-                    "error forwarding cse capture into lambda, which should work".to_string(),
-                ));
+            for affected in affected_lambdas.iter() {
+                if let Some(res) = replace_in_bodyform(
+                    std::slice::from_ref(affected),
+                    &function_body,
+                    &|_v: &PathDetectVisitorResult<()>, b| {
+                        add_variable_to_lambda_capture(&new_variable_name, b)
+                    },
+                ) {
+                    function_body = res;
+                } else {
+                    return Err(CompileErr(
+                        loc.clone(),
+                        "error forwarding cse capture into lambda, which should work"
+                            .to_string(),
+                    ));
+                }
             }
 
             if let Some(res) = replace_in_bodyform(
